@@ -26,6 +26,14 @@
        call inside, a failing sibling task and a born-failed sibling.
    Hypotheses of all machine theorems: pointwise service, no_unwind (the runaway guard did not fire), one root
    computation created from the program.
+   WITHOUT THE HYPOTHESIS no_unwind (end of the file; proofs/MachineNoUnwind.v, MachineGuardForms.v): the three
+   tree-program theorems again as C02_delivered_only_when_all_siblings_done_guard,
+   C02_delivered_is_unwrap_of_own_outcomes_guard, C02_uncaught_failure_is_the_outcome_of_value_guard, and in the
+   disjunctive reading "..., or the guard fired at an earlier step" as
+   C02_delivered_only_when_all_siblings_done_unless_guard, C02_uncaught_failure_is_the_outcome_of_value_unless_guard.
+   The _guard forms need no assumption about exceptions unwinding: FutureIsAlreadyComputed is proved unreachable
+   for tree programs, so only the runaway guard's RuntimeError can unwind through asynq's frames, and "the guard has
+   not fired before step n" (forall k < n, guard_fires P (run P k c0) = false) is a decidable condition on the run.
    NOT PROVED (correspondence + monitors only): programs with stored handles (a future created by Let and awaited
    later or twice, LOld leaves, value() on an existing future or batch item), ReadVar / Probe, contexts whose
    pause/resume raise; that a synchronous call returns at all (termination; "first return" is a hypothesis of the
@@ -270,3 +278,64 @@ Example C02_sync_call_hypotheses_satisfiable :
   evals c02s_callee = Ok (VInt 7).
 Proof. exact c02s_demo_call_returns. Qed.
 Print Assumptions C02_sync_call_hypotheses_satisfiable.
+
+(* ==== the same WITHOUT an assumption about exceptions unwinding (proofs/MachineNoUnwind.v, MachineGuardForms.v) ====
+   [no_unwind] is replaced by "the MAX_TASK_STACK_SIZE guard has not fired before step n":
+   forall k < n, guard_fires P (run P k c0) = false, where guard_fires is the boolean test at the head of the
+   _execute loop in Machine.step.  For tree programs under a pointwise service the two say the same:
+   FutureIsAlreadyComputed is proved unreachable, so the guard's RuntimeError is the only exception that can
+   unwind through asynq's frames. *)
+From Asynq Require Import proofs.MachineNoUnwind proofs.MachineGuardForms.
+Theorem C02_delivered_only_when_all_siblings_done_guard : forall P, pointwise P -> forall p, tree p -> forall n t,
+  let h := fst (create [] (FTask p) (st0 P)) in
+  let s1 := snd (create [] (FTask p) (st0 P)) in
+  (forall k, (k < n)%nat -> guard_fires P (run P k (start h s1)) = false) ->
+  c_mode (run P n (start h s1)) = MResume t ->
+  exists tk, get t (c_st (run P n (start h s1))) = Some (mkFut None (KTask tk)) /\
+    forall x, In (RFut x) (leaves (tk_last tk)) -> computed x (c_st (run P n (start h s1))) = true.
+Proof. exact resume_guard_tree_guard. Qed.
+Print Assumptions C02_delivered_only_when_all_siblings_done_guard.
+
+(* the disjunctive reading: ... or the guard fired at an earlier step *)
+Theorem C02_delivered_only_when_all_siblings_done_unless_guard : forall P, pointwise P -> forall p, tree p -> forall n t,
+  let h := fst (create [] (FTask p) (st0 P)) in
+  let s1 := snd (create [] (FTask p) (st0 P)) in
+  c_mode (run P n (start h s1)) = MResume t ->
+  (exists tk, get t (c_st (run P n (start h s1))) = Some (mkFut None (KTask tk)) /\
+     forall x, In (RFut x) (leaves (tk_last tk)) -> computed x (c_st (run P n (start h s1))) = true) \/
+  (exists k, (k < n)%nat /\ guard_fires P (run P k (start h s1)) = true).
+Proof. exact resume_guard_tree_unless_guard. Qed.
+Print Assumptions C02_delivered_only_when_all_siblings_done_unless_guard.
+
+Theorem C02_delivered_is_unwrap_of_own_outcomes_guard : forall P, pointwise P -> forall p, tree p -> forall n t,
+  let h := fst (create [] (FTask p) (st0 P)) in
+  let s1 := snd (create [] (FTask p) (st0 P)) in
+  (forall k, (k < n)%nat -> guard_fires P (run P k (start h s1)) = false) ->
+  c_mode (run P n (start h s1)) = MResume t ->
+  exists tk k spec, get t (c_st (run P n (start h s1))) = Some (mkFut None (KTask tk)) /\
+    tk_gen tk = Some k /\
+    c_mode (step P (run P n (start h s1))) =
+      MRun t (k (unwrap (look (c_st (run P n (start h s1)))) (tk_last tk))) /\
+    unwrap (look (c_st (run P n (start h s1)))) (tk_last tk) = unwrap (look_spec spec) (tk_last tk) /\
+    spec t = Some (eval (k (unwrap (look_spec spec) (tk_last tk)))).
+Proof. exact delivered_is_unwrap_tree_guard. Qed.
+Print Assumptions C02_delivered_is_unwrap_of_own_outcomes_guard.
+
+Theorem C02_uncaught_failure_is_the_outcome_of_value_guard : forall P p n o,
+  pointwise P -> tree p ->
+  let h := fst (create [] (FTask p) (st0 P)) in
+  let s1 := snd (create [] (FTask p) (st0 P)) in
+  (forall k, (k < n)%nat -> guard_fires P (run P k (start h s1)) = false) ->
+  c_mode (run P n (start h s1)) = MDone o -> o = eval p.
+Proof. exact async_eq_seq_tree_guard. Qed.
+Print Assumptions C02_uncaught_failure_is_the_outcome_of_value_guard.
+
+(* C01 in the disjunctive form: the outcome of value() is the sequential one, or the guard fired at an earlier step *)
+Theorem C02_uncaught_failure_is_the_outcome_of_value_unless_guard : forall P p n o,
+  pointwise P -> tree p ->
+  let h := fst (create [] (FTask p) (st0 P)) in
+  let s1 := snd (create [] (FTask p) (st0 P)) in
+  c_mode (run P n (start h s1)) = MDone o ->
+  o = eval p \/ exists k, (k < n)%nat /\ guard_fires P (run P k (start h s1)) = true.
+Proof. exact (fun P p n o HP Ht => async_eq_seq_tree_unless_guard P HP p Ht n o). Qed.
+Print Assumptions C02_uncaught_failure_is_the_outcome_of_value_unless_guard.
